@@ -64,7 +64,7 @@ CLAIMED = {
              "branches; erf branches under brentq's post-condition), prescribed end gradients with vanishing second derivative (Coquelicot), strict monotonicity of the "
              "cubic branches inside the code's own guard including its 1e-8 slack for both orderings, sign of the spacing in the erf branches, nesting under doubling of n, "
              "coincidence with the linear function at the switch. Translation validated against the real function; the same properties, segment sharing, limits and dx "
-             "are checked on the implementation for every topology (incl. a perturbed connected double null) and on corpus grids. Continuity in the parameters is swept: geometric sweeps of the end-gradient ratio 0.3..6 (step 0.4 %) through every switch between closed forms, second differences of all faces below 2e-3 of the psi range (observed 2e-5). On real equilibria at 32 times the radial resolution the one-sided gradients of the spacing function agree across every separatrix (incl. both sides of the inter-separatrix segment).",
+             "are checked on the implementation for every topology (incl. a perturbed connected double null) and on corpus grids. Continuity in the parameters is swept: geometric sweeps of the end-gradient ratio 0.3..6 (step 0.4 %) through every switch between closed forms, second differences of all faces below 2e-3 of the psi range (observed 2e-5). On real equilibria at 32 times the radial resolution the one-sided gradients of the spacing function agree across every separatrix (incl. both sides of the inter-separatrix segment). Equilibrium.make1dGrid is modelled (theories/Model_Grid1d.v, PrimFloat instance run bit for bit against the real method incl. refusals): 2n+1 values whose even entries ARE the face values, guard sound in any arithmetic, strictly monotone face values (either direction) always accepted over the reals.",
         note="Trusted: Coq kernel + Reals/Coquelicot axioms; erf contract (erf 0 = 0, odd, derivative) and brentq post-condition as Section hypotheses; translator; the sici "
              "(two-gradient decreasing) branch is oracle-only; trig-branch monotonicity proved only in the interior of its guard; binary64 plateaus of erf for extreme ratios are "
              "refused loudly by make1dGrid and only counted.",
